@@ -1073,7 +1073,8 @@ class TorConfig:
                     except KeyError:
                         default_key = '__{}'.format(name[:-5])
                         default = yield self.protocol.get_conf_single(default_key)
-                        if not default:
+                        if not default or default == DEFAULT_VALUE:
+                            # Tor has no default for this port either
                             initial = []
                         else:
                             initial = [default]
